@@ -169,7 +169,7 @@ func TestVerifTxSign(t *testing.T) {
 		k := fmt.Sprint(sig)
 		sigCount[k]++
 		if sigCount[k] <= 2 {
-			res.Violate(sig, replay, format, a...)
+			res.Violate(sig, map[string]interface{}{"violated": sig, "input": replay}, format, a...)
 		}
 	}
 	for ci, m := range in.Mutations {
